@@ -341,6 +341,15 @@ Theorem C02_window_change_resets : forall xo s xkw s', has_windows xo -> xreach 
         mget d (x_core s') = mget d (x_core s)).
 Proof. intros xo s xkw s' H R. apply xselect_dims. apply xreach_XInv; assumption. Qed.
 
+(* weights= / flags= with several windows: an accepted call sets exactly the selection it names and keeps the other
+   (whatever it does to masks, window and subarray). *)
+Theorem C02_multiwindow_flags_weights : forall xo s xkw s', has_windows xo -> xreach xo s -> NoDup (map fst xkw) ->
+  xselect xo s xkw = (OOk, s') ->
+  let kw := elab_kw (x_vocab xo) xkw in
+  wk (x_core s') = match lookup "weights" kw with Some v => v | None => wk (x_core s) end
+  /\ flk (x_core s') = match lookup "flags" kw with Some v => v | None => flk (x_core s) end.
+Proof. intros xo s xkw s' H R. apply xselect_weights_flags. apply xreach_XInv; assumption. Qed.
+
 (* spw= / subarray= outside 0 .. n-1 - negative indices included - is rejected (IndexError, or the TypeError of an
    unknown keyword) and nothing is touched. *)
 Theorem C02_window_out_of_range : forall xo s xkw z,
@@ -582,6 +591,7 @@ Definition C02_all_theorems :=
    C02_multiwindow_idempotent,
    C02_history_example,
    C02_window_change_resets,
+   C02_multiwindow_flags_weights,
    C02_window_out_of_range,
    C02_failed_call_atomic_partial,
    C02_failed_call_atomic_refuted,
